@@ -438,10 +438,18 @@ pub fn gen_cuts(rng: &mut Rng, doc: &[u8]) -> (Vec<u32>, &'static str) {
 /// Apply the stated exception of C02: the sniff may look at the first piece only
 pub fn respect_sniff(doc: &[u8], st: &mut Stream) {
     if starts_with_signature(doc) {
-        let need = 4.min(doc.len()) as u32;
+        // a complete byte order mark is recognised from exactly its own bytes (a writer that
+        // sends the BOM as a separate piece is ordinary); every other signature needs 4
+        let need = if doc.starts_with(&[0xEF, 0xBB, 0xBF]) {
+            3
+        } else if doc.starts_with(&[0xFE, 0xFF]) || doc.starts_with(&[0xFF, 0xFE]) {
+            2
+        } else {
+            4.min(doc.len())
+        } as u32;
         st.cuts.retain(|&c| c >= need);
-        if st.cap < 4 {
-            st.cap = 4;
+        if st.cap < need {
+            st.cap = need;
         }
         st.grow = false;
     }
